@@ -64,6 +64,22 @@ fn toprim(neg: bool, a: &[u64], unsigned_type: bool) -> Verdict {
             (None, true) => {}
             (g, _) => return Err(format!("BigInt::to_biguint: got {:?} for a value with negative={}", g, r.neg)),
         }
+        // trait forms (generic callers do not reach the inherent methods)
+        match (ToBigUint::to_biguint(&x), r.neg) {
+            (Some(v), false) => ctx(eq_bu(&v, &r.mag), "<BigInt as ToBigUint>::to_biguint")?,
+            (None, true) => {}
+            (g, _) => return Err(format!("<BigInt as ToBigUint>::to_biguint: got {:?} for a value with negative={}", g, r.neg)),
+        }
+        match ToBigInt::to_bigint(&x) {
+            Some(v) => ctx(eq_bi(&v, &r), "<BigInt as ToBigInt>::to_bigint")?,
+            None => return Err("<BigInt as ToBigInt>::to_bigint returned None".into()),
+        }
+        match (BigUint::try_from(&x), r.neg) {
+            (Ok(v), false) => ctx(eq_bu(&v, &r.mag), "BigUint::try_from(&BigInt)")?,
+            (Err(_), true) => {}
+            (g, _) => return Err(format!("BigUint::try_from(&BigInt): ok={} for a value with negative={}", g.is_ok(), r.neg)),
+        }
+        ctx(eq_bi(&BigInt::from(x.magnitude().clone()), &r.abs()), "BigInt::from(BigUint)")?;
         match must_return("BigUint::try_from(BigInt)", || BigUint::try_from(x.clone()))? {
             Ok(v) => {
                 if r.neg {
@@ -377,7 +393,7 @@ impl Property for C08 {
     fn budget(&self, tier: Tier) -> Budget {
         match tier {
             Tier::Quick => Budget { release: 4_500_000, dbg: 1_500_000, workers: 8 },
-            Tier::Thorough => Budget { release: 48_000_000, dbg: 12_000_000, workers: 16 },
+            Tier::Thorough => Budget { release: 160_000_000, dbg: 40_000_000, workers: 16 },
         }
     }
     fn probes(&self) -> Vec<Probe> {
